@@ -162,3 +162,115 @@ def line(kind, fmt, args, n=None):
 def parse_out(o):
     d = dict(x.split("=", 1) for x in o.split())
     return int(d["r"]), (b"" if d["w"] == "-" else bytes.fromhex(d["w"])), d.get("z")
+
+
+# ---------------------------------------------------------------------------------------------- C09 check
+
+GLIBC_DEV = {"n": 0, "examples": []}
+
+
+def ref_args(args):
+    return [(t, v) for t, v in args]
+
+
+def oracle(case, out):
+    """impl `pf -1` output must equal the exact reference; glibc is cross-checked against the reference"""
+    t = case[0].split()
+    fmt = bytes.fromhex(t[3])
+    args = []
+    for a in t[4:]:
+        k = a[0]
+        if k in "iu": args.append((k, int(a[1:])))
+        elif k == "d": args.append(("d", int(a[1:], 16)))
+        else: args.append((k, b"" if a[1:] == "-" else bytes.fromhex(a[1:])))
+    try:
+        want = R.sprintf(fmt, args)
+    except Exception as e:
+        raise vlib.InfraError("reference failed on %r: %s" % (case[0], e))
+    r, w, z = parse_out(out[0])
+    if w != want or r != len(want):
+        return "pf_snprintf(%r, %s) = %r (returned %d); the C standard's output is %r (%d)" % (
+            fmt.decode("latin-1"), " ".join(t[4:]), w.decode("latin-1"), r, want.decode("latin-1"), len(want))
+    if len(out) > 1:
+        rg, wg, _ = parse_out(out[1])
+        if wg != want:
+            GLIBC_DEV["n"] += 1
+            if len(GLIBC_DEV["examples"]) < 5:
+                GLIBC_DEV["examples"].append({"fmt": fmt.decode("latin-1"), "args": t[4:], "glibc": wg.decode("latin-1"), "exact": want.decode("latin-1")})
+            conv = [p for p in R.parse(fmt) if not isinstance(p, bytes)]
+            if not any(p.conv in "gG" and "#" in p.flags for p in conv):
+                return "reference implementation and glibc disagree outside the known %%#g carry case: %r vs %r for %s" % (want, wg, case[1])
+    return None
+
+
+def compare(a, b):
+    """line 1: implementation vs model of the implementation; line 2: glibc vs the Lean specification - where
+    glibc is wrong (see oracle) the specification must equal the exact reference, which the oracle has checked
+    against line 1; so a difference on line 2 alone is tolerated only if line 1 agrees and the Lean spec = line 1"""
+    if a[0] != b[0]:
+        return False
+    if len(a) > 1 and a[1] != b[1]:
+        r1, w1, _ = parse_out(b[0]); r2, w2, _ = parse_out(b[1])
+        return w1 == w2 and r1 == r2
+    return True
+
+
+def gen_cases(ctx, n_single, n_multi):
+    r = ctx.rng
+    cases = []
+    hist = {}
+    def add(fmt, args):
+        for p in R.parse(fmt):
+            if not isinstance(p, bytes):
+                hist[p.conv] = hist.get(p.conv, 0) + 1
+        cases.append([line("pf", fmt, args, -1), line("ref", fmt, args)])
+    # systematic: every conversion x flag subset x (width, precision) grid on edge values
+    import itertools
+    flagsets = ["", "-", "+", " ", "#", "0", "-+", "+0", " 0", "#0", "-#", "+#0", "- ", "+ 0#"]
+    for conv in "diuoxX":
+        for fl in flagsets:
+            for w in ("", "1", "6", "12"):
+                for p in ("", ".", ".0", ".1", ".5", ".12"):
+                    for v in (0, 1, -1, 255, -2147483648, 9223372036854775807, -9223372036854775808):
+                        if r.random() < (0.12 if ctx.tier == "quick" else 1.0):
+                            lm = r.choice(["", "ll", "hh", "h", "j"])
+                            add(("[%" + fl + w + p + lm + conv + "]").encode(), [("i", v)])
+    for conv in "fFeEgG":
+        for fl in flagsets:
+            for w in ("", "9", "20"):
+                for p in ("", ".0", ".1", ".3", ".10", ".17"):
+                    for v in (0.0, -0.0, 1.0, 0.5, 9.5, 9.9999995, 0.0001, 0.00009999995, 123456789.0, 1e21, 5e-324, float("inf"), float("nan")):
+                        if r.random() < (0.05 if ctx.tier == "quick" else 1.0):
+                            add(("[%" + fl + w + p + conv + "]").encode(), [("d", dbits(v))])
+    for _ in range(n_single):
+        add(*rand_format(r, nconv=1))
+    for _ in range(n_multi):
+        add(*rand_format(r))
+    return cases, hist
+
+
+def run(ctx):
+    ctx.rules.append("a case = one (format, arguments) pair: pf_snprintf into a roomy buffer vs the exact reference, and glibc "
+                     "snprintf vs the Lean specification; formats from the grammar [flags][width|*][.prec|.*][length]conv for "
+                     "c s d i o x X u f F e E g G p %%, 1..4 conversions with literal text; integers: edge values of every "
+                     "width and random 1..64-bit values; doubles: edge list, decimal ties k/2^j, 9..9 carry values, powers of "
+                     "ten +- 1 ulp, subnormals, random bit patterns, infinities and NaNs; non-trivial = has a conversion; "
+                     "distinct by (format, arguments)")
+    ctx.assumptions += ["x86-64 SysV calling convention: integer-class and double arguments of a variadic call are fetched "
+                        "independently (the harness passes 6 integer-class and 8 double slots)",
+                        "%S, %lc and the %n-style conversions the library does not implement are outside the claim",
+                        "glibc 2.36 prints %#g wrongly when rounding carries into a new power of ten; there the exact "
+                        "big-integer reference and the Lean specification (which agree) are the arbiter"]
+    exe = ctx.build_harness("c09")
+    ctx.build_model()
+    ctx.prove()
+    if ctx.replay_cases is not None:
+        cases, hist = ctx.replay_cases, {}
+    else:
+        quick = ctx.tier == "quick"
+        base = vlib.load_corpus("C09")
+        cases, hist = gen_cases(ctx, 12000 if quick else 400000, 4000 if quick else 100000)
+        cases = base + cases
+    ctx.correspond("snprintf", exe, cases, oracle=oracle, compare=compare, nontrivial=lambda c: "25" in c[0].split()[3])
+    ctx.extra_cov["conversions"] = hist
+    ctx.extra_cov["glibc_deviations_from_exact_reference"] = dict(GLIBC_DEV)
